@@ -31,7 +31,7 @@ HERE = os.path.dirname(os.path.dirname(os.path.abspath(__file__)))
 
 
 class Mut:
-    def __init__(self, name, file, func, old, new, expect=(), twin=False, nth=0, error_ok=False, note=""):
+    def __init__(self, name, file, func, old, new, expect=(), twin=False, nth=0, error_ok=False, note="", also=()):
         self.name = name
         self.file = file  # path relative to the repo root, e.g. "urwid/signals.py"
         self.func = func  # qualified function (short form accepted by Project.func) or None = whole file
@@ -42,6 +42,7 @@ class Mut:
         self.nth = nth
         self.error_ok = error_ok  # an ANALYSIS-ERROR (anchor vanished / floor) counts as detection
         self.note = note
+        self.also = list(also)  # further (old, new) replacements inside the same function, applied after the first
 
 
 def _segment(project, m: Mut):
@@ -80,6 +81,10 @@ def apply(project, m: Mut):
         # ambiguous anchor: refuse rather than edit the wrong place
         return None
     new = src[: a + pos] + m.new + src[a + pos + len(m.old) :]
+    for old2, new2 in getattr(m, "also", ()):
+        if new.count(old2) != 1:
+            return None
+        new = new.replace(old2, new2)
     return new
 
 
